@@ -30,7 +30,8 @@ Definition Groesster_Gemeinsamer_Teiler (a b : Z) : res Z := ggt_loop (Z.to_nat 
 (* Gib (der Betrag von (a mal b) durch (ggT von a und b)) als Zahl zurück. -- a Kommazahl division, exact below 2^53 *)
 Definition Kleinster_Gemeinsamer_Teiler (a b : Z) : res Z :=
   do g <- Groesster_Gemeinsamer_Teiler a b;;
-  if g =? 0 then Undef else Ok (Z.quot (Z.abs (wrap64 (a * b))) g).
+  (* a = b = 0: 0,0 durch 0 is NaN, and the conversion NaN -> Zahl is 0 *)
+  if g =? 0 then Ok 0 else Ok (Z.quot (Z.abs (wrap64 (a * b))) g).
 
 Definition Ist_Teilbar (dividend divisor : Z) : res bool := do r <- zrem dividend divisor;; Ok (r =? 0).
 Definition Gerade_Zahl (x : Z) : bool := Z.rem x 2 =? 0.
